@@ -131,3 +131,7 @@ Proof. split; vm_compute; reflexivity. Qed.
 Example json_empty_key_refuted :                        (* {"":7} in assoc mode is the list [7] *)
   decode_assoc (JObj [([], JNum true 7 4619567317775286272)]) = Some (PList [PInt 7]).
 Proof. vm_compute. reflexivity. Qed.
+
+(* the grammar (and the parser) take any scalar as an array key: a:1:{N;N;} is the map {"" => null} *)
+Example ex_lenient_key : unserialize [97;58;49;58;123; 78;59; 78;59; 125] = POk (VMap [([], VNull)]).
+Proof. vm_compute. reflexivity. Qed.
